@@ -1,4 +1,4 @@
-import GateryModel.C18.Seq
+import GateryModel.C18.Lemmas3
 /-!
 # C18 — property theorems
 
@@ -13,10 +13,10 @@ Statements only — the proofs are in `C18/Lemmas.lean`, `Lemmas2.lean`, `Seq.le
 
 Covered by theorem: get/set/clear/toggle, insertNonStraddling, extractNonStraddling, insert, extract (straddling
 included), setRange/clearRange (3-segment split), copyRange (byte fast path + chunk loop), compareRange
-(DefaultConfig specialisation), resize, and arbitrary operation sequences.
+(DefaultConfig specialisation), resize, operator==, allOne/allZero/allDefined/anyDefined, extract(start,size),
+insert(state,…), append, and arbitrary operation sequences.
 Covered by correspondence only (driver compares model AND spec with the implementation, no theorem yet):
-compareRange<ExtendedConfig>, extract(start,size)/insert(state,…)/append, operator==, allOne/allZero/anyDefined,
-extractBigInt/insertBigInt.
+compareRange<ExtendedConfig>, extractBigInt/insertBigInt.
 -/
 namespace Gatery.C18.Props
 open Gatery.C18 Gatery.Gen
@@ -79,6 +79,42 @@ theorem compareRangeDefault_spec (dv dd sv sd : Plane) (dOff sOff size : Nat)
     cases h0 : bit sd (sOff + j)
     · exact Or.inl rfl
     · exact Or.inr (h2 h0)
+
+/-- `operator==` (word-wise comparison with the last word masked) decides equality of the first `size` bits. -/
+theorem eq_spec (a b : Plane) (size : Nat) (ha : a.length = (size + 63) / 64) :
+    eqPlane a b size a.length = true ↔ ∀ j, j < size → bit a j = bit b j := by
+  rw [eqPlane_spec]
+  constructor
+  · intro h j hj; exact h j (by omega)
+  · intro h j hj; exact h j (by omega)
+
+/-- `allOne` / `allDefined` (chunked scan: head bits, full words, tail bits) decides "every bit of the clamped range is set". -/
+theorem allOne_holds (p : Plane) (vsize start size : Nat) :
+    allOne p vsize start size = true ↔ ∀ j, j < min size (vsize - start) → bit p (start + j) = true := allOne_spec p vsize start size
+
+theorem allZero_holds (p : Plane) (vsize start size : Nat) :
+    allZero p vsize start size = true ↔ ∀ j, j < min size (vsize - start) → bit p (start + j) = false := allZero_spec p vsize start size
+
+/-- `anyDefined` decides "some bit of the clamped range is set". -/
+theorem anyOne_holds (p : Plane) (vsize start size : Nat) :
+    anyOne p vsize start size = true ↔ ∃ j, j < min size (vsize - start) ∧ bit p (start + j) = true := anyOne_spec p vsize start size
+
+/-- `extract(start, size)` (fresh state; memcpy when byte aligned, copyRange otherwise) is the addressed slice, zero beyond. -/
+theorem extractState_spec (sp : Plane) (start size i : Nat) (hs : start + size ≤ 64 * sp.length) :
+    bit (extractPlane sp start size) i = (decide (i < size) && bit sp (start + i)) := bit_extractPlane sp start size i hs
+
+/-- `insert(state, offset, size)` (chunks cut at the word borders of both vectors) writes exactly `[offset, offset+width)`. -/
+theorem insertState_spec (dst src : Plane) (width offset i : Nat)
+    (hd : offset + width ≤ 64 * dst.length) (hs : width ≤ 64 * src.length) :
+    bit (insertStateChunks dst src width (width + 1) offset 0) i =
+      if offset ≤ i ∧ i < offset + width then bit src (i - offset) else bit dst i := by
+  have := bit_insertStateChunks dst src width (width + 1) offset 0 i hd hs (by omega) (by omega)
+  simpa using this
+
+/-- `append(src)`: old bits stay, the new bits follow, nothing else. -/
+theorem append_spec (dp sp : Plane) (dsize ssize i : Nat) (hs : ssize ≤ 64 * sp.length) :
+    bit (appendPlane dp sp dsize ssize) i =
+      if i < dsize then bit dp i else if i < dsize + ssize then bit sp (i - dsize) else false := bit_appendPlane dp sp dsize ssize i hs
 
 /-! ### the same as equalities with the bit-array specification -/
 
